@@ -286,6 +286,27 @@ class TableBuilder:
             raise _Return()
         elif k == "NullStmt":
             return
+        elif k == "CXXForRangeStmt" and self._table_ref(fn, self._range_init(n), env) is not None:
+            # `for (auto& row : table)` / `for (auto& cell : row)`: iterate the next dimension of the table
+            name, idx = self._table_ref(fn, self._range_init(n), env)
+            dims = self.dims[name]
+            if len(idx) >= len(dims):
+                self._broken(fn, n, "range-for over a table element")
+            var = None
+            lv = n.get("loopVar")
+            if isinstance(lv, dict):
+                for d in lv.get("decls", []) or []:
+                    if "decl" in d:
+                        var = d["decl"]
+            if var is None:
+                self._broken(fn, n, "range-for without a loop variable")
+            self.loop_depth += 1
+            try:
+                for i in range(dims[len(idx)]):
+                    env[var] = ("ref", name, tuple(idx) + (i,))
+                    self._exec(fn, n.get("body"), env)
+            finally:
+                self.loop_depth -= 1
         elif k in ("DoStmt", "SwitchStmt", "CXXTryStmt", "CXXForRangeStmt", "GotoStmt", "LabelStmt",
                    "BreakStmt", "ContinueStmt"):
             if self.touches(n) or k in ("BreakStmt", "ContinueStmt", "GotoStmt"):
@@ -293,6 +314,69 @@ class TableBuilder:
                     self._broken(fn, n, "unsupported statement")
         else:
             self._ev(fn, n, env)
+
+    @staticmethod
+    def _range_init(n):
+        rs = n.get("rangeStmt")
+        if isinstance(rs, dict):
+            for d in rs.get("decls", []) or []:
+                if d.get("init") is not None:
+                    return d["init"]
+        return None
+
+    def _table_ref(self, fn, n, env):
+        """(table name, constant index prefix) denoted by an expression: the table member itself, a local bound
+        to a row by a range-for, or a subscript of one of these"""
+        while n is not None and n.get("k") in _CASTS and n.get("c"):
+            n = n["c"][0]
+        if n is None:
+            return None
+        f = _this_field(n)
+        if f in self.dims:
+            return f, ()
+        if n.get("k") == "DeclRefExpr" and n["ref"].get("dk") in ("parm", "local", "staticlocal"):
+            v = env.get(n["ref"].get("decl"))
+            if isinstance(v, tuple) and v and v[0] == "ref":
+                return v[1], v[2]
+            return None
+        if n.get("k") == "ArraySubscriptExpr" and len(n.get("c") or []) == 2:
+            base = self._table_ref(fn, n["c"][0], env)
+            if base is not None:
+                i = self._ev(fn, n["c"][1], env)
+                if not isinstance(i, int):
+                    self._broken(fn, n, "index of %s is not a constant" % base[0])
+                return base[0], tuple(base[1]) + (i,)
+        return None
+
+    def _write_key(self, fn, n, name, key, val):
+        if self.ptr_table[name]:
+            if val == 0:
+                val = NULL
+            if not (val == NULL or (isinstance(val, tuple) and val[0] == "f")):
+                self._broken(fn, n, "value stored to %s is not a known function" % name)
+        elif not isinstance(val, int):
+            self._broken(fn, n, "value stored to %s is not a constant" % name)
+        if any(i < 0 or i >= d for i, d in zip(key, self.dims[name])):
+            self.oob.append((name, key, fn.where(n)))
+            return
+        self.tables[name][key] = val
+        if not self.loop_depth:
+            self.explicit[name].setdefault(key, []).append((val, fn.where(n)))
+        if self._stack:
+            self._stack[-1]["writes"].append((name, key, val))
+
+    def _fill(self, fn, n, ref, val):
+        """every element below a (partial) table reference gets val - std::fill over a row / the table"""
+        name, idx = ref
+        dims = self.dims[name]
+        rest = dims[len(idx):]
+        import itertools as _it
+        self.loop_depth += 1
+        try:
+            for tail in _it.product(*[range(d) for d in rest]):
+                self._write_key(fn, n, name, tuple(idx) + tuple(tail), val)
+        finally:
+            self.loop_depth -= 1
 
     def _write(self, fn, n, name, idx_nodes, val, env):
         idx = [self._ev(fn, i, env) for i in idx_nodes]
@@ -371,6 +455,15 @@ class TableBuilder:
                     val = self._ev(fn, rhs, env)
                     self._write(fn, n, tr[0], tr[1], val, env)
                     return val
+                tref = None
+                if lhs.get("k") in ("ArraySubscriptExpr", "DeclRefExpr"):
+                    tref = self._table_ref(fn, lhs, env)
+                if tref is not None:
+                    val = self._ev(fn, rhs, env)
+                    if len(tref[1]) != len(self.dims[tref[0]]):
+                        self._broken(fn, n, "assignment to a whole row of %s" % tref[0])
+                    self._write_key(fn, n, tref[0], tuple(tref[1]), val)
+                    return val
                 f = _this_field(lhs)
                 if f == self.state_field:
                     val = self._ev(fn, rhs, env)
@@ -443,6 +536,26 @@ class TableBuilder:
                 if all(isinstance(i, int) for i in idx) and len(idx) == len(self.dims[tr[0]]):
                     return self.tables[tr[0]].get(tuple(idx), UNSET)
                 self._broken(fn, n, "table read with a non-constant index")
+            return None
+        if k == "CallExpr" and strip_targs(n.get("callee") or "") in ("std::fill", "std::fill_n"):
+            args = c[1:]
+            if len(args) == 3:
+                def _unwrap(x, names):
+                    while x is not None and x.get("k") in _CASTS and x.get("c"):
+                        x = x["c"][0]
+                    if x is not None and x.get("k") == "CallExpr" and strip_targs(x.get("callee") or "") in names \
+                            and len(x.get("c") or []) == 2:
+                        return x["c"][1]
+                    return None
+                if strip_targs(n["callee"]) == "std::fill":
+                    b, e = _unwrap(args[0], ("std::begin",)), _unwrap(args[1], ("std::end",))
+                    rb = self._table_ref(fn, b, env) if b is not None else None
+                    re_ = self._table_ref(fn, e, env) if e is not None else None
+                    if rb is not None and rb == re_:
+                        self._fill(fn, n, rb, self._ev(fn, args[2], env))
+                        return None
+            if self.touches(n):
+                self._broken(fn, n, "std::fill over part of a table")
             return None
         if k == "CXXMemberCallExpr":
             callee = self._this_callee(n)
